@@ -15,7 +15,14 @@ fn roc(p: &Params) {
     let (npos, nneg) = (lab.iter().filter(|b| **b).count(), lab.iter().filter(|b| !**b).count());
     // the statement is about vectors with both classes present
     assume_bool(npos > 0 && nneg > 0);
-    let score = |l: usize| l as f32 / (levels - 1) as f32;
+    // grid=0: j/(levels-1); grid=1: consecutive f32 values from 0.5 upwards (different scores one ulp apart);
+    // grid=2: multiples of 1e-9 (tiny probabilities)
+    let grid = p.u("grid", 0);
+    let score = |l: usize| match grid {
+        1 => f32::from_bits(0.5f32.to_bits() + l as u32),
+        2 => l as f32 * 1e-9,
+        _ => l as f32 / (levels - 1) as f32,
+    };
     let pr: Vec<Pr> = lv.iter().map(|&l| Pr::new(score(l))).collect();
     let r = match form {
         0 => pr.as_slice().roc(lab.as_slice()),
